@@ -84,6 +84,13 @@ def main():
     demo = re.sub(r"/tmp/wt-seed-[A-Za-z0-9_-]+", WT, demo)
     # demo directory available as ./demo inside the worktree
     shutil.copytree(os.path.join(outd, "demo"), os.path.join(WT, "demo"))
+    # demo files laid out like the repository (demo/internal/x/y_test.go) are also placed there
+    for dp, _, fs_ in os.walk(os.path.join(outd, "demo")):
+        rel = os.path.relpath(dp, os.path.join(outd, "demo"))
+        if rel != "." and os.path.isdir(os.path.join(WT, rel)):
+            for f in fs_:
+                if f.endswith(".go"):
+                    shutil.copy2(os.path.join(dp, f), os.path.join(WT, rel, f))
     rc0, out0 = sh("timeout 1500 sh -c %s" % json.dumps(demo), shell=True)
     log["demo_without_change"] = {"rc": rc0, "tail": out0[-600:]}
     rc, out = sh(["git", "apply", os.path.join(outd, "patch.diff")])
